@@ -33,6 +33,29 @@ theorem Inv.entered {w w2 : W} {t : FileInfo} {l : Nat} (h : Inv w2 (w.enter t l
   rw [s]
   exact ⟨rfl, rfl, n, ls⟩
 
+/-- one chunk preserves the invariant if the body generator does -/
+theorem genNode_inv (L : Loader) (named : List Named) (g : List Node → W → W)
+    (hg : ∀ nodes w, Inv (g nodes w) w) (n : Node) (w : W) : Inv (genNode L named g n w) w := by
+  cases n with
+  | text v line ws => simp only [genNode]; split; exact Inv.refl _; exact Inv.write ..
+  | expr e line raw => exact Inv.writeAll ..
+  | stmt s line => exact Inv.write ..
+  | inter s line => exact (Inv.writeAt ..).trans (Inv.write ..)
+  | control s line body =>
+    exact (Inv.setIndent ..).trans ((Inv.write ..).trans ((hg body _).trans ((Inv.setIndent ..).trans (Inv.writeHdr ..))))
+  | apply m line body =>
+    exact (Inv.write ..).trans ((Inv.setIndent ..).trans ((Inv.write ..).trans ((hg body _).trans
+      ((Inv.write ..).trans ((Inv.write ..).trans ((Inv.setIndent ..).trans ((Inv.writeHdr ..).trans (Inv.setCounter ..))))))))
+  | block name line body =>
+    simp only [genNode]; split
+    · exact Inv.fail ..
+    · exact Inv.entered (hg _ _)
+  | «extends» name => exact Inv.fail ..
+  | incl name line =>
+    simp only [genNode]; split
+    · exact Inv.fail ..
+    · exact Inv.entered (hg _ _)
+
 theorem gen_inv (L : Loader) (named : List Named) (f : Nat) (nodes : List Node) (w : W) :
     Inv (gen L named f nodes w) w := by
   induction f generalizing nodes w with
@@ -44,26 +67,7 @@ theorem gen_inv (L : Loader) (named : List Named) (f : Nat) (nodes : List Node) 
       simp only [gen]
       split
       · exact Inv.refl _
-      · refine (ih ns _).trans ?_
-        cases n with
-        | text v line ws => dsimp only; split; exact Inv.refl _; exact Inv.write ..
-        | expr e line raw => exact Inv.writeAll ..
-        | stmt s line => exact Inv.write ..
-        | inter s line => exact (Inv.writeAt ..).trans (Inv.write ..)
-        | control s line body =>
-          exact (Inv.setIndent ..).trans ((Inv.write ..).trans ((ih body _).trans ((Inv.setIndent ..).trans (Inv.writeHdr ..))))
-        | apply m line body =>
-          exact (Inv.write ..).trans ((Inv.setIndent ..).trans ((Inv.write ..).trans ((ih body _).trans
-            ((Inv.write ..).trans ((Inv.write ..).trans ((Inv.setIndent ..).trans ((Inv.writeHdr ..).trans (Inv.setCounter ..))))))))
-        | block name line body =>
-          dsimp only; split
-          · exact Inv.fail ..
-          · exact Inv.entered (ih _ _)
-        | «extends» name => exact Inv.fail ..
-        | incl name line =>
-          dsimp only; split
-          · exact Inv.fail ..
-          · exact Inv.entered (ih _ _)
+      · exact (ih ns _).trans (genNode_inv L named _ ih n w)
 
 theorem W.fail_indent (w : W) (e : GenErr) : (w.fail e).indent = w.indent := by unfold W.fail; split <;> rfl
 theorem W.writeAll_indent (w : W) (cs : List Str) (l : Nat) : (w.writeAll cs l).indent = w.indent := by
@@ -73,6 +77,25 @@ theorem W.writeAll_indent (w : W) (cs : List Str) (l : Nat) : (w.writeAll cs l).
   | cons c cs ih => exact (ih (w.write c l)).trans rfl
 theorem W.leave_indent (w : W) : w.leave.indent = w.indent := by
   unfold W.leave; split; exact W.fail_indent ..; rfl
+
+theorem genNode_indent (L : Loader) (named : List Named) (g : List Node → W → W)
+    (hg : ∀ nodes w, (g nodes w).indent = w.indent) (n : Node) (w : W) : (genNode L named g n w).indent = w.indent := by
+  cases n with
+  | text v line ws => simp only [genNode]; split <;> rfl
+  | expr e line raw => exact W.writeAll_indent ..
+  | stmt s line => rfl
+  | inter s line => rfl
+  | control s line body => simp [genNode, W.write, W.writeAt, W.writeHdr, hg body]
+  | apply m line body => simp [genNode, W.write, W.writeAt, W.writeHdr, hg body]
+  | block name line body =>
+    simp only [genNode]; split
+    · exact W.fail_indent ..
+    · rw [W.leave_indent, hg]; rfl
+  | «extends» name => exact W.fail_indent ..
+  | incl name line =>
+    simp only [genNode]; split
+    · exact W.fail_indent ..
+    · rw [W.leave_indent, hg]; rfl
 
 theorem gen_indent (L : Loader) (named : List Named) (f : Nat) (nodes : List Node) (w : W) :
     (gen L named f nodes w).indent = w.indent := by
@@ -85,23 +108,7 @@ theorem gen_indent (L : Loader) (named : List Named) (f : Nat) (nodes : List Nod
       simp only [gen]
       split
       · rfl
-      · rw [ih ns]
-        cases n with
-        | text v line ws => dsimp only; split <;> rfl
-        | expr e line raw => exact W.writeAll_indent ..
-        | stmt s line => rfl
-        | inter s line => rfl
-        | control s line body => simp [W.write, W.writeAt, W.writeHdr, ih body]
-        | apply m line body => simp [W.write, W.writeAt, W.writeHdr, ih body]
-        | block name line body =>
-          dsimp only; split
-          · exact W.fail_indent ..
-          · rw [W.leave_indent, ih]; rfl
-        | «extends» name => exact W.fail_indent ..
-        | incl name line =>
-          dsimp only; split
-          · exact W.fail_indent ..
-          · rw [W.leave_indent, ih]; rfl
+      · rw [ih ns]; exact genNode_indent L named _ ih n w
 
 theorem countNl_append (a b : Str) : countNl (a ++ b) = countNl a + countNl b := by simp [countNl]
 theorem countNl_reverse (a : Str) : countNl a.reverse = countNl a := by simp [countNl]
